@@ -25,7 +25,9 @@ ALPH = ['a', 'b', 'Z', '0', ' ', '\n', '\r', '\r\n', '#', '.', ':', '=',
         '    ', '\x0b', '\x0c', '\x1c', '\x85', ' ', '日本',
         'Ж', '\\ No newline at end of file\n', '{', '}', '"', '%',
         '€', 'e\u0301', '\u2126', 'A\u030a', '\u1100\u1161', '\ufb01',
-        '\u00a0', '\u200b', '\u2028', '\u2029', '\x1d', '\x1e']
+        '\u00a0', '\u200b', '\u2028', '\u2029', '\x1d', '\x1e',
+        '\U0001f600', '\U00010000', '\U0010ffff', '\u0130', '\u00df',
+        '\u01c5', '\u200d', '\ufffd', '\ufffe', '\x7f', '\x1a', '\x08']
 
 _ENC_OK = {}
 
@@ -71,7 +73,9 @@ def gen_json_value(rng, depth=0):
     elif k == 1:
         return rng.choice([True, False, None])
     elif k == 2:
-        return rng.choice([1.5, -0.25, 1e20, 0.0])
+        return rng.choice([1.5, -0.25, 1e20, 0.0, -0.0, 1e308, 5e-324,
+                           100.0, -(2 ** 63), 2 ** 64, 10 ** 30,
+                           123456789012345678])
     elif k in (3, 4, 5, 6):
         return gen_text(rng, 'utf-8', 4)
     elif k == 7:
